@@ -99,6 +99,7 @@ def _oracle_soh_pass(run, hist, multi):
       ever returned or destroyed twice."""
     objs, tags = {}, {}
     owner = None
+    shared = set()
     cur = {}
     held = {}
     dead = set()
@@ -111,10 +112,14 @@ def _oracle_soh_pass(run, hist, multi):
             hist_clock.append(0)
             if t[1] in ("add", "addt"):
                 held.setdefault(tid, []).append(int(t[3]))
-        elif k == "mlk":
-            if owner is not None:
-                return "mapLock granted to %d while %d holds it" % (tid, owner)
-            owner = tid
+        elif k in ("mlk", "slk"):
+            # slk: a shared acquisition (a tree whose mapLock is a shared mutex): readers may overlap each other, never a writer
+            if owner is not None or (k == "mlk" and shared):
+                return "mapLock granted to %d while %s holds it" % (tid, owner if owner is not None else sorted(shared))
+            if k == "mlk":
+                owner = tid
+            else:
+                shared.add(tid)
             c = cur.get(tid)
             if c is None:
                 return "thread %d locked mapLock outside any call" % tid
@@ -132,14 +137,17 @@ def _oracle_soh_pass(run, hist, multi):
                 exp, ids, calls = _ref(objs, tags, c["f"])
                 c["exp"], c["calls"] = exp, calls
                 held.setdefault(tid, []).extend(ids)
-        elif k == "mul":
-            if owner != tid:
+        elif k in ("mul", "sul"):
+            if (k == "mul" and owner != tid) or (k == "sul" and tid not in shared):
                 return "thread %d released mapLock it does not hold" % tid
-            owner = None
+            if k == "mul":
+                owner = None
+            else:
+                shared.discard(tid)
             cur[tid]["unlocks"] += 1
         elif k == "pcl":
             c = cur.get(tid)
-            if c is None or owner != tid:
+            if c is None or (owner != tid and tid not in shared):
                 return "predicate invoked by %d outside its critical section" % tid
             c["seen"].append(int(t[1]))
         elif k in ("ret", "exc"):
@@ -147,7 +155,7 @@ def _oracle_soh_pass(run, hist, multi):
             if c is None:
                 return "return without call"
             what = " ".join(c["f"])
-            if owner == tid:
+            if owner == tid or tid in shared:
                 return "%s returned still holding mapLock" % what
             if c["f"][0] == "dtor":
                 objs.clear()
@@ -178,8 +186,12 @@ def _oracle_soh_pass(run, hist, multi):
         elif k == "mac":
             c = cur.get(tid)
             teardown = c is not None and c["f"][0] == "dtor" and c["unlocks"] > 0 and c["locks"] == c["unlocks"]
-            if owner != tid and not teardown:
-                return "thread %d accessed %s without holding mapLock" % (tid, t[1])
+            write = len(t) < 3 or t[2] != "r"
+            if not teardown:
+                if owner != tid and tid not in shared:
+                    return "thread %d accessed %s without holding mapLock" % (tid, t[1])
+                if write and owner != tid:
+                    return "thread %d WROTE %s while holding mapLock only shared (other readers may be inside)" % (tid, t[1])
         elif k == "pdt":
             i = int(t[1])
             if i in dead:
